@@ -235,7 +235,7 @@ func (f *Frame) orderCheck(li *LoopInfo) {
 			if sortedOK {
 				c = "true"
 			}
-			e.addObl("order.sorted", tag+":"+phi.Comment, "true", c, li.header.Instrs[0].Pos(), "a slice compared as a multiset is sorted (sort.Strings / sort.Sort / sort.Slice) before any other use after the loop", f.props())
+			e.addObl("order.sorted", tag+":"+phi.Comment, "true", c, li.header.Instrs[0].Pos(), "a slice compared as a multiset is sorted by sort.Strings or sort.Ints (a total order) before any other use after the loop", f.props())
 			e.mute++
 			if sl, ok := phi.Type().Underlying().(*types.Slice); ok {
 				eq = append(eq, f.bagDeltaEq(sl, st0.phis[phi], a1, a12, b2, b21, phi))
@@ -299,7 +299,7 @@ func (f *Frame) orderCheck(li *LoopInfo) {
 		if sortedOK {
 			cst = "true"
 		}
-		e.addObl("order.sorted", tag+":"+xname, "true", cst, li.header.Instrs[0].Pos(), "a slice compared as a multiset is sorted (sort.Strings / sort.Sort / sort.Slice) before any other use after the loop", f.props())
+		e.addObl("order.sorted", tag+":"+xname, "true", cst, li.header.Instrs[0].Pos(), "a slice compared as a multiset is sorted by sort.Strings or sort.Ints (a total order) before any other use after the loop", f.props())
 		e.mute++
 	}
 	ws := e.loopWriteSet(f, li)
@@ -433,7 +433,7 @@ func sortedBeforeUse(phi *ssa.Phi, li *LoopInfo) bool {
 			continue
 		}
 		if call, ok := r.(*ssa.Call); ok {
-			if fn, ok := call.Call.Value.(*ssa.Function); ok && fn.Pkg != nil && fn.Pkg.Pkg.Path() == "sort" && len(call.Call.Args) > 0 {
+			if fn, ok := call.Call.Value.(*ssa.Function); ok && fn.Pkg != nil && totalOrderSort(fn) && len(call.Call.Args) > 0 {
 				arg := call.Call.Args[0]
 				if arg == ssa.Value(phi) {
 					sortCalls = append(sortCalls, r)
@@ -507,7 +507,7 @@ func sortedValueBeforeUse(v ssa.Value, li *LoopInfo) bool {
 			continue // before the loop
 		}
 		if call, ok := r.(*ssa.Call); ok && sc == nil {
-			if fn, ok := call.Call.Value.(*ssa.Function); ok && fn.Pkg != nil && fn.Pkg.Pkg.Path() == "sort" && len(call.Call.Args) > 0 && call.Call.Args[0] == v {
+			if fn, ok := call.Call.Value.(*ssa.Function); ok && fn.Pkg != nil && totalOrderSort(fn) && len(call.Call.Args) > 0 && call.Call.Args[0] == v {
 				sc = r
 				continue
 			}
@@ -622,4 +622,16 @@ func (p *Prog) mapRangeCoverage(prop string, obls []*Obligation) ([]*Obligation,
 		}
 	}
 	return out, notes
+}
+
+// totalOrderSort: library sorts whose result is a function of the multiset of
+// elements (a total order in which equal elements are indistinguishable).
+// sort.Slice / sort.Sort / sort.Stable with a caller-supplied order are not
+// accepted: if that order is not total on the elements (e.g. case-insensitive
+// comparison of distinct strings) the result still depends on the input order.
+func totalOrderSort(fn *ssa.Function) bool {
+	if fn.Pkg == nil || fn.Pkg.Pkg.Path() != "sort" {
+		return false
+	}
+	return fn.Name() == "Strings" || fn.Name() == "Ints"
 }
